@@ -194,11 +194,11 @@ def mc_lut(run, tier):
 
 
 def jobs_for(tier, sd):
-    n = 70 if tier == "quick" else 1400
+    n = 90 if tier == "quick" else 1600
     jobs = corpus.all_singles(sd)
     # emphasis: cascades (U65 dedicated SRAM with small cache, Size), wide convs with small cache, LUT chains, branches
     fams = ["chain", "chain", "wide", "lut", "branch", "mixed", "u8i16", "inplace", "lutmany", "resize", "pruned", "diamonds",
-            "stride3", "widen"]
+            "stride3", "widen", "tied", "bigchain", "nncascade", "bcast"]
     jobs += corpus.draw(n, sd, families=fams, dedicated_bias=0.5)
     return jobs
 
